@@ -141,18 +141,27 @@ open DHint
 variable (D : DWorld)
 
 mutual
-/-- `is_ignorable` (`sanify_hint_any(hint) is HINT_SANE_IGNORABLE`; TypeVarTypeHint overrides it
-    with "all branches ignorable"; [fix] CallableTypeHint no longer overrides it) -/
-def ign : DHint → Bool
+/-- `sanify_hint_any(hint) is HINT_SANE_IGNORABLE`: what the CHECKER ignores — `object`, `Any`, a NewType
+    of `object`, a union with an ignorable member, a TypeVar whose bound / union of constraints is ignorable
+    (or that has neither), `Annotated` over an ignorable hint -/
+def ignS : DHint → Bool
   | .any => true
   | .cls c => c == cObject || D.ntParent c == some cObject
-  | .union hs => ignAny hs
-  | .typevar hs => ignAll hs
-  | .annotated h _ => ign h
+  | .union hs => ignSAny hs
+  | .typevar hs => ignSAny hs
+  | .annotated h _ => ignS h
   | _ => false
-def ignAny : List DHint → Bool
+def ignSAny : List DHint → Bool
   | [] => false
-  | h :: hs => ign h || ignAny hs
+  | h :: hs => ignS h || ignSAny hs
+end
+
+mutual
+/-- `TypeHint.is_ignorable`: the checker's notion, except that TypeVarTypeHint overrides it with "ALL
+    bounds/constraints ignorable" ([fix] CallableTypeHint no longer overrides it) -/
+def ign : DHint → Bool
+  | .typevar hs => ignAll hs
+  | h => ignS D h
 def ignAll : List DHint → Bool
   | [] => true
   | h :: hs => ign h && ignAll hs
@@ -389,7 +398,7 @@ def DHint.Reg : DHint → Prop
   | .any => False
   | .cls _ => True
   | .union hs => hs ≠ [] ∧ RegAll hs ∧ hs.all (fun h => !h.isUnionLike) = true
-  | .typevar hs => hs ≠ [] ∧ RegAll hs ∧ hs.all (fun h => !h.isUnionLike) = true ∧ (ignAny D hs = true → ignAll D hs = true)
+  | .typevar hs => hs ≠ [] ∧ RegAll hs ∧ hs.all (fun h => !h.isUnionLike) = true ∧ (ignSAny D hs = true → ignAll D hs = true)
   | .literal ms => ms ≠ [] ∧ ∀ m ∈ ms, ∀ m' ∈ ms, m.1 = m'.1
   | .annotated h _ => h.Reg
   | .tupleFixed hs => RegAll hs
@@ -409,6 +418,22 @@ def DHint.Proper : DHint → Prop
   | .tupleVar h => h.Proper
   | .annotated h _ => h.Proper
   | _ => True
+
+/-- hints that `==` compares structurally: classes and subscripted hints whose arguments are not all
+    ignorable, all the way down (on these, equal wrappers wrap equal hints, hence have equal hashes) -/
+def DHint.Rigid : DHint → Prop
+  | .cls _ => True
+  | .cont _ _ h => h.Rigid ∧ ign D h = false
+  | .mapping _ k v => k.Rigid ∧ v.Rigid ∧ (ign D k && ign D v) = false
+  | .tupleVar h => h.Rigid ∧ ign D h = false
+  | _ => False
+
+/-- the hint without the checker's container logic (which is a function of the origin, not part of the hint) -/
+def DHint.erase : DHint → DHint
+  | .cont _ o h => .cont .seq o h.erase
+  | .mapping o k v => .mapping o k.erase v.erase
+  | .tupleVar h => .tupleVar h.erase
+  | h => h
 
 /-! ### the wrapper as a container: len / iter / getitem / contains / args / hash, and the factory -/
 
@@ -431,9 +456,9 @@ def witer (a : DHint) : List DHint := children a
 def wgetitem (a : DHint) (i : Nat) : Option DHint := (children a)[i]?
 
 /-- `c in TypeHint(a)`: membership in `frozenset(children)` — a child with the same hash that is
-    the same object or compares equal. `key` abstracts `hash(hint)` / identity of the wrapped hint. -/
-def wcontains (key : DHint → Nat) (a c : DHint) : Bool :=
-  (children a).any (fun ch => key ch == key c && (eqW D ch c == .ok true))
+    the same object or compares equal. `hash` abstracts `hash(wrapper) = hash(hint)`, `same` object identity. -/
+def wcontains (hash : DHint → Nat) (same : DHint → DHint → Bool) (a c : DHint) : Bool :=
+  (children a).any (fun ch => hash ch == hash c && (same ch c || (eqW D ch c == .ok true)))
 
 /-- `_TypeHintMetaclass.__call__` + `_HINT_TO_WRAPPER`: wrappers are cached by the (hashable)
     hint; `k` identifies the hint up to Python equality, wrapper identities are numbers. -/
